@@ -169,6 +169,8 @@ def str_method(I, s, name):
             r = py_eq(I_, s, a[0])
             return (not r if isinstance(r, bool) else boolval(z3.Not(r))) if neg else boolval(r)
         return Native(name, cmp)
+    if hasattr(str, name):
+        raise OutOfReach("str.%s is not modelled" % name)       # CPython has it: not an AttributeError of the code under analysis
     I.raise_builtin("AttributeError", "'str' object has no attribute %r" % name)
 
 
@@ -203,4 +205,29 @@ def bytes_method(I, s, name):
         return Native("decode", decode)
     if name == "__class__":
         return I.world.builtins["bytes"]
+    if name == "join":
+        def join(I_, a, k):
+            items = I_.iterate(a[0])
+            if isinstance(s, bytes) and all(isinstance(x, bytes) for x in items):
+                return s.join(items)
+            parts = []
+            for n_, x in enumerate(items):
+                if n_:
+                    parts.append(s)
+                parts.append(x)
+            ts = []
+            for x in parts:
+                if isinstance(x, bytes):
+                    if x:
+                        ts.append(z3.StringVal(x.decode("latin1")))
+                elif isinstance(x, Sym) and I_.kind(x) == "bytes":
+                    ts.append(get_y(x.term))
+                else:
+                    I_.raise_builtin("TypeError", "sequence item: expected a bytes-like object")
+            if not ts:
+                return b""
+            return Sym(VBytes(S(z3.Concat(*ts)) if len(ts) > 1 else S(ts[0])))
+        return Native("join", join)
+    if hasattr(bytes, name):
+        raise OutOfReach("bytes.%s is not modelled" % name)
     I.raise_builtin("AttributeError", "'bytes' object has no attribute %r" % name)
